@@ -4,7 +4,9 @@
     only single-word lines exceed the width, rows of an instruction group are max(rowspan, #lines).
 (B) generated documents go through the real skool2asm / skool2html / sna2skool; the projected lines are judged
     by spec/doc/WrapCases.tla (words in order exactly once per section and instruction group, instructions once
-    with address and operation, width rule with its exceptions, warnings, brace rules of the skool format).
+    with address and operation, width rule with its exceptions, warnings, brace rules of the skool format);
+    the same clauses for #LIST / #TABLE blocks behind register names and in instruction-level comments, where
+    the line - prefix, register name or instruction field included - is what must not exceed the line width.
 """
 import collections
 import multiprocessing as mp
